@@ -296,6 +296,7 @@ pub fn c02(tier: &str) -> ! {
         nested,
         check_directory: false,
         prefix: "C02",
+        cross_cfg: false,
     };
     let all_cfgs = ["T300", "T300n", "M2", "M2n"];
     if t {
@@ -305,9 +306,12 @@ pub fn c02(tier: &str) -> ! {
         run_crash(&mut rep, "generated<=5", generated_histories(&all_cfgs, 5), spec(false), budget(tier, 40, 900), own);
         run_crash(&mut rep, "generated<=4+nested", generated_histories(&["M2n", "T300"], 4), spec(true), budget(tier, 40, 900), own);
         run_crash(&mut rep, "generated<=4/levels", generated_histories(&["L", "Ln"], 4), spec(false), budget(tier, 40, 600), own);
+        run_crash(&mut rep, "covering/recovered-with-other-options", covering_histories(&all_cfgs).into_iter().chain(shrink_history()).collect(), CrashSpec { cross_cfg: true, ..spec(false) }, budget(tier, 40, 900), own);
+        run_crash(&mut rep, "generated<=4/recovered-with-other-options", generated_histories(&all_cfgs, 4), CrashSpec { cross_cfg: true, ..spec(false) }, budget(tier, 40, 900), own);
     } else {
         run_crash(&mut rep, "covering", covering_histories(&all_cfgs).into_iter().chain(shrink_history()).collect(), spec(false), budget(tier, 20, 0), own);
         run_crash(&mut rep, "covering+nested", covering_histories(&["M2", "T300n"]), spec(true), budget(tier, 20, 0), own);
+        run_crash(&mut rep, "covering/recovered-with-other-options", covering_histories(&all_cfgs).into_iter().chain(shrink_history()).collect(), CrashSpec { cross_cfg: true, ..spec(false) }, budget(tier, 15, 0), own);
         run_crash(&mut rep, "generated<=3", generated_histories(&all_cfgs, 3), spec(false), budget(tier, 25, 0), own);
         run_crash(&mut rep, "generated<=2+nested", generated_histories(&all_cfgs, 2), spec(true), budget(tier, 15, 0), own);
     }
@@ -347,6 +351,7 @@ pub fn c16(tier: &str) -> ! {
         nested: false,
         check_directory: false,
         prefix: "C16",
+        cross_cfg: false,
     };
     let all_cfgs = ["T300", "T300n", "M2", "M2n"];
     if t {
